@@ -95,8 +95,11 @@ def rand_cover(rng, avail):
 def gen_model(rng, name, nin, submodels, top, ncov, nflops, vector_io):
     m = Model(name)
     if top and vector_io:
-        w = rng.randint(2, 3)
-        m.inputs = ['va[%d]' % i for i in range(w)] + ['x%d' % i for i in range(max(1, nin - w))]
+        w = rng.choice([2, 3, 3, 11, 12])      # >= 11 bits: lexicographic and numeric index order differ
+        bits_ = ['va[%d]' % i for i in range(w)]
+        if rng.random() < 0.3:
+            rng.shuffle(bits_)
+        m.inputs = bits_ + ['x%d' % i for i in range(max(1, nin - min(w, 3)))]
     else:
         m.inputs = ['x%d' % i for i in range(nin)]
     qs = ['q%d' % i for i in range(nflops)]
@@ -134,9 +137,10 @@ def gen_model(rng, name, nin, submodels, top, ncov, nflops, vector_io):
     if top and vector_io and len(outs) >= 2:
         # present two of the outputs as a vector port: alias signals through buffer covers
         vb = []
-        for i, o in enumerate(outs[:2]):
+        wout = rng.choice([2, 2, 11, 12])
+        for i in range(wout):
             nm = 'vo[%d]' % i
-            m.covers.append(([o], nm, ['1']))
+            m.covers.append(([outs[i % 2]] if wout == 2 else [rng.choice(cands)], nm, ['1']))
             vb.append(nm)
         outs = vb + outs[2:]
     m.outputs = outs
@@ -460,7 +464,7 @@ def check_bench(ctx, k):
 def main(ctx):
     proofs_ok = proof_gate(ctx, gen_modules=['BlifTables'])
     n = ctx.n(400, 6000)
-    for k in range(n):
+    for k in ctx.loop(n):
         check_blif(ctx, k)
         ctx.evaluations += 1
         if len(ctx.violations) >= 5:
